@@ -516,6 +516,21 @@ def gen(repo):
     g2 = peer_erase_guarded(usrc, "shutdownDrain", "UdpEngine::shutdownDrain")
     t += "/-- `_peerIndex.erase` only when the entry maps to the closing session (F17 repaired) - closeNow / shutdownDrain -/\n"
     t += "def udpPeerEraseGuardedCloseNow : Bool := %s\ndef udpPeerEraseGuardedDrain : Bool := %s\n" % (str(g1).lower(), str(g2).lower())
+    # F35: the shutdown drain must drop the fd tag of every session it frees (restart would otherwise dispatch to freed sessions)
+    tbody = cxxscan.function_body(tsrc, "shutdownDrain")
+    ubody = cxxscan.function_body(usrc, "shutdownDrain")
+    m = re.search(r"for\s*\(\s*auto\s*\*\s*s\s*:\s*toClose\s*\)\s*\{", tbody)
+    if not m:
+        raise TranslateError("TcpEngine::shutdownDrain: session loop not found")
+    loop = tbody[m.end() - 1:cxxscan.match_brace(tbody, m.end() - 1)]
+    t_erase = bool(re.search(r"_fdTags\s*\.\s*erase\s*\(", loop)) or bool(re.search(r"_fdTags\s*\.\s*clear\s*\(\s*\)", tbody))
+    m = re.search(r"for\s*\(\s*auto\s*\*\s*s\s*:\s*toClose\s*\)\s*\{", ubody)
+    if not m:
+        raise TranslateError("UdpEngine::shutdownDrain: session loop not found")
+    loop = ubody[m.end() - 1:cxxscan.match_brace(ubody, m.end() - 1)]
+    u_erase = bool(re.search(r"_tags\s*\.\s*erase\s*\(", loop)) or bool(re.search(r"_tags\s*\.\s*clear\s*\(\s*\)", ubody))
+    t += "/-- the session loop of shutdownDrain erases the fd tag of every session it frees (tcp `_fdTags`, udp `_tags`) -/\n"
+    t += "def tcpDrainErasesTags : Bool := %s\ndef udpDrainErasesTags : Bool := %s\n" % (str(t_erase).lower(), str(u_erase).lower())
     fan, obs, unobs, setd = fanout_skeleton(repo)
     t += "/-- order of the Transport-level close handler (transport_impl.hpp, cbs.onClose) -/\n"
     t += "def fanout : List String := %s\n" % lean_list(fan)
